@@ -1446,7 +1446,23 @@ def _address_taken(facts):
     return out
 
 
-def analyse_crate(facts, want=None):
+_CRATE_CACHE = {}
+
+
+def analyse_crate(facts, want=None, keep=None):
+    """memoised per fact base: the crate-wide run is shared by INDEX-GUARDED and POSITION-ADD"""
+    ck = id(facts)
+    if ck not in _CRATE_CACHE:
+        kp = {}
+        allb = {b.key for b in facts.body_list if b.promoted is None}
+        _CRATE_CACHE[ck] = (_analyse_crate(facts, want=allb, keep=kp), kp, facts)
+    out, kp, _ = _CRATE_CACHE[ck]
+    if keep is not None:
+        keep.update(kp)
+    return out
+
+
+def _analyse_crate(facts, want=None, keep=None):
     """run the analysis over every body (parents before their closures); private helper functions are analysed a second time
     with the facts every one of their call sites establishes about their parameters; returns {body key: {point: site}}"""
     bodies = [b for b in facts.body_list if b.promoted is None]
@@ -1471,7 +1487,7 @@ def analyse_crate(facts, want=None):
             has_sites, has_closures = interesting(b)
             calls_local = any(facts.body((t.get('callee') or {}).get('resolved') or (t.get('callee') or {}).get('path') or '') is not None
                               for _, t in b.calls())
-            if not has_sites and not has_closures and not calls_local:
+            if not has_sites and not has_closures and not calls_local and not (keep is not None and want and b.key in want):
                 continue
             a = BoundsAnalysis(facts, b)
             if b.d['kind'] == 'Closure':
@@ -1484,6 +1500,8 @@ def analyse_crate(facts, want=None):
             elif use_fn_entries and b.key in fn_entries:
                 a.entry = fn_entries[b.key]
             sites = a.run()
+            if keep is not None:
+                keep[b.key] = a
             for pt, (path, z) in a.closure_made.items():
                 entries.setdefault(path, []).append(z)
             for k, zs in a.calls_made.items():
@@ -1943,5 +1961,76 @@ def rule_decoder_width(ctx, config='dev'):
                             'the VLQ accumulator is %d bits wide and digits are shifted in only for positions up to %s: a field delta with '
                             'magnitude >= 2^%d loses its high digits (7 digits / 35 bits are needed for 32-bit fields), so a well-formed '
                             'mappings string decodes to different positions' % (w, ub, max(0, (ub or 0) + 5 - 1) if ub is not None else w - 1))
+    r.check_floor()
+    return r
+
+
+POSITION_ASSUMED = {
+    ('ConcatSource', 'generated_line'): (1, 'line numbers count line breaks / `;` separators: reaching 2^32 needs a mappings string of 4 GiB '
+                                            '(the input assumption DECODER-TOTAL already states)'),
+    ('ReplaceSource', 'generated_column'): (3, 'ReplaceSource streams its inner source with text (final_source = false): the positions it '
+                                               'receives are positions inside the delivered text, not values copied from a map'),
+}
+
+
+def rule_position_add(ctx, config='dev'):
+    """composites add their offsets to a child's reported position without overflow"""
+    from .. import anchors
+    from .streams import composites, closure_kind
+    from ..ir import walk
+    f = ctx.facts(config)
+    r = RuleResult('POSITION-ADD', 'a composite combines the generated position a child reports (in final-source mode a value copied '
+                                   'unchecked from the child\'s source map) with its own offsets without 32-bit overflow: the u32 '
+                                   'arithmetic on `mapping.generated_line` / `generated_column` in its chunk handler is proven in range, '
+                                   'done in a wider / saturating form, or listed with the input assumption it needs')
+    r.floor = 1 if f.meta().get('overflow_checks') else 0
+    mp = anchors.adt_by_name(f, 'Mapping')['path']
+    comps, ol = composites(f)
+    handlers = []
+    for root, members, inner in comps:
+        for m in inner:
+            if closure_kind(m) == 'chunk' and m not in handlers:
+                handlers.append((root, m))
+    keep = {}
+    analyse_crate(f, want={m.key for _, m in handlers}, keep=keep)
+    unproven = {}
+    for root, m in handlers:
+        a = keep.get(m.key)
+        if a is None:
+            continue
+        adt = (root.d.get('impl_adt') or root.path).rsplit('::', 1)[-1]
+        for pt, v in sorted(a.arith.items()):
+            if v['kind'] != 'Overflow' or v['op'] not in ('Add', 'Sub', 'Mul') or v['ty'] not in UNSIGNED_BITS or UNSIGNED_BITS[v['ty']] > 32:
+                continue
+            t = m.term(pt[0])
+            flds = set()
+            for k in ('a', 'b'):
+                o = t['msg'].get(k)
+                if isinstance(o, dict):
+                    for x in walk(m.expr_of_operand(o)):
+                        if x[0] == 'field' and x[3] == mp and x[2] in ('generated_line', 'generated_column') and \
+                                any(y[0] == 'arg' and y[3] == m.key for y in walk(x)):
+                            flds.add(x[2])
+            if not flds:
+                continue
+            inst = '%s: %s on the child\'s %s' % (m.path, v['op'], '/'.join(sorted(flds)))
+            if v['ok']:
+                r.site(inst + ': ' + v['why'], v['span'], 'ok')
+            else:
+                for fl in sorted(flds):
+                    unproven.setdefault((adt, fl), []).append((m, v, inst))
+    for key, lst in sorted(unproven.items()):
+        allowed, reason = POSITION_ASSUMED.get(key, (0, None))
+        if len(lst) <= allowed:
+            for m, v, inst in lst:
+                r.site(inst + ': not proven; assumed: ' + reason, v['span'], 'assumed')
+            continue
+        for m, v, inst in lst:
+            r.site(inst + ': ' + v['why'], v['span'], 'violation')
+        r.violation('%s:%s:%d>%d' % (key[0], key[1], len(lst), allowed), lst[0][1]['span'], lst[0][0].path,
+                    '%d u32 operation(s) on a child\'s `%s` in %s\'s chunk handler can overflow (at most %d accepted%s): %s — a child '
+                    'map with a huge value there makes map() panic in overflow-checked builds' % (
+                        len(lst), key[1], key[0], allowed, (' for: ' + reason) if reason else '',
+                        '; '.join('%s (%s)' % (v['span'], v['why']) for m, v, inst in lst)))
     r.check_floor()
     return r
